@@ -18,7 +18,7 @@ import (
 
 func (r *rs) iocopy() {
 	c := r.c
-	fn := c.Func(pkgU, "", "Iocopy")
+	fn := r.fn(pkgU, "", "Iocopy")
 	if fn == nil {
 		return
 	}
@@ -40,8 +40,8 @@ func (r *rs) iocopy() {
 		return
 	}
 	_, _ = pid, mid
-	rp, _ := g.Find(reads[0])
-	wp, _ := g.Find(writes[0])
+	rp, _ := flow.PointOf(g, reads[0])
+	wp, _ := flow.PointOf(g, writes[0])
 	// (a) the read is bounded by max
 	clamp := func(m ast.Node) bool { return reslice(info, m, isP, isMax) }
 	small := flow.Establishes(g, func(f cfgq.Fact) bool {
@@ -86,7 +86,14 @@ func (r *rs) iocopy() {
 	isPrefix := func(e ast.Expr) bool { return prefixOf(info, e, isP, flow.IsObj(info, n)) }
 	okDom, wd := g.Dominated(wp, isNode(rp.Node()))
 	c.Check("R3.bounded", "Iocopy/read-before-write", writes[0].Pos(), okDom, "the write must follow the read", wd...)
-	switch arg := ast.Unparen(writes[0].Args[0]); {
+	if flow.Assignments(info, fn.Decl.Body, n) != 1 {
+		c.Undecidedf("R3.bounded", "Iocopy/write-prefix", reads[0].Pos(), "the byte count variable is assigned more than once")
+		return
+	}
+	// the buffer is only ever re-sliced from its start (checked above) and n is assigned once, so a local
+	// defined as p[:n] denotes the bytes just read wherever it is used
+	local := func(e ast.Expr) ast.Expr { return ast.Unparen(flow.ValueOf(info, fn.Decl.Body, ast.Unparen(e))) }
+	switch arg := local(writes[0].Args[0]); {
 	case isP(arg):
 		w := g.Path(cfgq.Query{From: rp, After: true, Avoid: trunc, Target: isNode(wp.Node())})
 		c.Check("R3.bounded", "Iocopy/write-prefix", writes[0].Pos(), w == nil, "between Read and Write the buffer must be cut to the n bytes read (p = p[:n]): otherwise stale buffer bytes are written after the fresh ones", w...)
@@ -100,12 +107,15 @@ func (r *rs) iocopy() {
 	for _, pt := range g.Points(func(m ast.Node) bool { _, ok := m.(*ast.ReturnStmt); return ok }) {
 		ret := pt.Node().(*ast.ReturnStmt)
 		nret++
-		res := unconv(info, ret.Results[0])
+		res := unconv(info, local(unconv(info, ret.Results[0])))
 		call, isCall := res.(*ast.CallExpr)
+		isLen := isCall && flow.IsBuiltin(info, call, "len")
 		switch {
 		case flow.IsObj(info, n)(res):
 			c.Okf("R3.bounded", "Iocopy/returns-count", ret.Pos(), "returns n")
-		case isCall && flow.IsBuiltin(info, call, "len") && isP(call.Args[0]):
+		case isLen && isPrefix(local(call.Args[0])):
+			c.Okf("R3.bounded", "Iocopy/returns-count", ret.Pos(), "returns len(p[:n])")
+		case isLen && isP(call.Args[0]):
 			w := g.Path(cfgq.Query{From: rp, After: true, Avoid: trunc, Target: isNode(ret)})
 			c.Check("R3.bounded", "Iocopy/returns-count", ret.Pos(), w == nil, "len(p) is the number of bytes moved only after p = p[:n]: a larger result makes the caller's countdown end before the RDB does", w...)
 		default:
@@ -120,7 +130,7 @@ func (r *rs) iocopy() {
 }
 
 // remaining checks one RDB copy loop: Iocopy(..., max) with max the remaining count.
-func (r *rs) boundedCaller(key string, fn *core.Fn, root ast.Node, iocopy *core.Fn, wantReader types.Object) {
+func (r *rs) boundedCaller(key string, fn *core.Fn, g *cfgq.Graph, root ast.Node, iocopy *core.Fn, wantReader types.Object) {
 	c := r.c
 	info := fn.Pkg.TypesInfo
 	calls := callsTo(info, root, iocopy.Obj, false)
@@ -138,27 +148,32 @@ func (r *rs) boundedCaller(key string, fn *core.Fn, root ast.Node, iocopy *core.
 			loop = fs
 		}
 	}
-	maxArg := flow.Resolve(info, root, call.Args[3])
+	// peel looks through conversions and single-definition locals
+	peel := func(e ast.Expr) ast.Expr {
+		for i := 0; i < 4; i++ {
+			e = unconv(info, e)
+			r := flow.Resolve(info, root, e)
+			if r == e {
+				break
+			}
+			e = r
+		}
+		return unconv(info, e)
+	}
+	maxArg := peel(call.Args[3])
 	pbuf := flow.Obj(info, call.Args[2])
-	if lc, ok := unconv(info, maxArg).(*ast.CallExpr); ok && flow.IsBuiltin(info, lc, "len") && pbuf != nil && flow.IsObj(info, pbuf)(lc.Args[0]) {
+	if lc, ok := maxArg.(*ast.CallExpr); ok && flow.IsBuiltin(info, lc, "len") && pbuf != nil && flow.IsObj(info, pbuf)(lc.Args[0]) {
 		c.Failf("R3.bounded", key+"/max-is-remaining", call.Pos(), "the RDB copy is bounded by the buffer size, not by the bytes still to copy: the last Read runs past the end of the RDB and the first command bytes end up in the RDB consumer / dump file")
 		return
 	}
-	// form A: x -= Iocopy(.., x)   under  for x != 0
-	var stmt ast.Stmt
-	for _, n := range path {
-		if s, ok := n.(ast.Stmt); ok {
-			if _, isBlock := s.(*ast.BlockStmt); !isBlock {
-				stmt = s
-			}
-		}
+	isCall := func(e ast.Expr) bool {
+		return unconv(info, flow.ValueOf(info, root, unconv(info, e))) == ast.Expr(call)
 	}
-	_ = stmt
+	var goOn, stop func(cfgq.Fact) bool // facts that say "bytes remain" / "nothing remains"
+	what := ""
 	if x := flow.Obj(info, maxArg); x != nil {
+		// form A: x -= Iocopy(.., x) while x != 0
 		sub := false
-		isCall := func(e ast.Expr) bool {
-			return unconv(info, flow.ValueOf(info, root, unconv(info, e))) == ast.Expr(call)
-		}
 		core.Inspect(root, func(m ast.Node) bool {
 			if as, ok := m.(*ast.AssignStmt); ok && len(as.Lhs) == 1 && len(as.Rhs) == 1 && flow.IsObj(info, x)(as.Lhs[0]) {
 				if as.Tok == token.SUB_ASSIGN && isCall(as.Rhs[0]) {
@@ -176,51 +191,75 @@ func (r *rs) boundedCaller(key string, fn *core.Fn, root ast.Node, iocopy *core.
 		}
 		c.Okf("R3.bounded", key+"/max-is-remaining", call.Pos(), "max is the remaining count %s and the result is subtracted from it", x.Name())
 		isX := flow.IsObj(info, x)
-		if loop == nil || loop.Cond == nil {
-			c.Undecidedf("R3.bounded", key+"/until-exhausted", call.Pos(), "the copy is not inside a conditional for loop")
+		what = x.Name() + " != 0"
+		goOn = func(f cfgq.Fact) bool { return nonZero(info, f, isX) }
+		stop = func(f cfgq.Fact) bool {
+			op, k, ok := flow.Cmp(info, f, isX)
+			return ok && (op == token.EQL && k == 0 || op == token.LEQ && k == 0 || op == token.LSS && k == 1)
+		}
+	} else {
+		// form B: max = total - done.Get(); done.Add(Iocopy(..)) while total != done.Get()
+		b := pat.Expr("_total - _done.Get()").Match(info, maxArg, nil)
+		if b == nil {
+			c.Undecidedf("R3.bounded", key+"/max-is-remaining", call.Pos(), "max argument %s is neither the remaining counter nor total - done.Get()", c.Src(call.Args[3]))
 			return
 		}
-		okc := false
-		for _, f := range cfgq.Facts(loop.Cond, true) {
-			okc = okc || nonZero(info, f, isX)
-		}
-		okx := false
-		for _, f := range cfgq.Facts(loop.Cond, false) {
-			if op, k, ok := flow.Cmp(info, f, isX); ok && (op == token.EQL && k == 0 || op == token.LEQ && k == 0 || op == token.LSS && k == 1) {
-				okx = true
-			}
-		}
-		c.Check("R3.bounded", key+"/until-exhausted", loop.Pos(), okc && okx, fmt.Sprintf("the loop must run while %s != 0 and stop only at 0: stopping earlier leaves RDB bytes in front of the command stream", x.Name()))
-		return
-	}
-	// form B: max = int(total - done.Get()); done.Add(int64(Iocopy(..)))  under  for total != done.Get()
-	b := pat.Expr("_total - _done.Get()").Match(info, unconv(info, maxArg), nil)
-	if b == nil {
-		c.Undecidedf("R3.bounded", key+"/max-is-remaining", call.Pos(), "max argument %s is neither the remaining counter nor total - done.Get()", c.Src(call.Args[3]))
-		return
-	}
-	added := false
-	core.Inspect(root, func(m ast.Node) bool {
-		if ac, ok := m.(*ast.CallExpr); ok {
-			if ab := pat.Expr("_done.Add(_v)").Match(info, ac, pat.Binds{"_done": b["_done"]}); ab != nil {
-				if unconv(info, flow.ValueOf(info, root, unconv(info, ab["_v"].(ast.Expr)))) == ast.Expr(call) {
+		added := false
+		core.Inspect(root, func(m ast.Node) bool {
+			if ac, ok := m.(*ast.CallExpr); ok {
+				if ab := pat.Expr("_done.Add(_v)").Match(info, ac, pat.Binds{"_done": b["_done"]}); ab != nil && isCall(ab["_v"].(ast.Expr)) {
 					added = true
 				}
 			}
+			return true
+		})
+		if !added {
+			c.Undecidedf("R3.bounded", key+"/max-is-remaining", call.Pos(), "the result of Iocopy is not added to the progress counter %s", c.Src(b["_done"]))
+			return
 		}
-		return true
-	})
-	if !added {
-		c.Undecidedf("R3.bounded", key+"/max-is-remaining", call.Pos(), "the result of Iocopy is not added to the progress counter %s", c.Src(b["_done"]))
+		c.Okf("R3.bounded", key+"/max-is-remaining", call.Pos(), "max is total - done and the result is added to done")
+		isTotal := func(e ast.Expr) bool { return pat.Same(info, e, b["_total"]) }
+		isDone := func(e ast.Expr) bool {
+			return pat.Expr("_done.Get()").Match(info, e, pat.Binds{"_done": b["_done"]}) != nil
+		}
+		// a local that holds total - done.Get()
+		isRem := func(e ast.Expr) bool {
+			_, isID := ast.Unparen(e).(*ast.Ident)
+			return isID && pat.Expr("_total - _done.Get()").Match(info, peel(e), b) != nil
+		}
+		rel := func(f cfgq.Fact) (token.Token, bool) { // relation "total op done"
+			x, y, op, ok := flow.Rel(f)
+			switch {
+			case ok && isTotal(x) && isDone(y):
+				return op, true
+			case ok && isDone(x) && isTotal(y):
+				return map[token.Token]token.Token{token.EQL: token.EQL, token.NEQ: token.NEQ, token.LSS: token.GTR, token.GTR: token.LSS, token.LEQ: token.GEQ, token.GEQ: token.LEQ}[op], true
+			}
+			return 0, false
+		}
+		what = "done != total"
+		goOn = func(f cfgq.Fact) bool {
+			op, ok := rel(f)
+			return ok && (op == token.NEQ || op == token.GTR) || nonZero(info, f, isRem)
+		}
+		stop = func(f cfgq.Fact) bool {
+			if op, ok := rel(f); ok && (op == token.EQL || op == token.LEQ) {
+				return true
+			}
+			op, k, ok := flow.Cmp(info, f, isRem)
+			return ok && (op == token.EQL && k == 0 || op == token.LEQ && k == 0 || op == token.LSS && k == 1)
+		}
+	}
+	cp, inGraph := flow.PointOf(g, call)
+	if loop == nil || !inGraph {
+		c.Undecidedf("R3.bounded", key+"/until-exhausted", call.Pos(), "the copy is not inside a for loop of the analysed body")
 		return
 	}
-	c.Okf("R3.bounded", key+"/max-is-remaining", call.Pos(), "max is total - done and the result is added to done")
-	if loop == nil || loop.Cond == nil {
-		c.Undecidedf("R3.bounded", key+"/until-exhausted", call.Pos(), "the copy is not inside a conditional for loop")
-		return
-	}
-	okc := pat.Expr("_total != _done.Get()").Match(info, loop.Cond, b) != nil || pat.Expr("_done.Get() < _total").Match(info, loop.Cond, b) != nil
-	c.Check("R3.bounded", key+"/until-exhausted", loop.Pos(), okc, "the loop must run exactly while done != total: stopping earlier truncates the dump and leaves RDB bytes in front of the command stream")
+	okOn, w1 := flow.OnlyVia(g, cp, goOn)
+	w2 := g.Path(cfgq.Query{From: cp, After: true, AvoidEdge: flow.Establishes(g, stop), TargetExit: cfgq.NormalExit,
+		Target: func(m ast.Node) bool { return !flow.Contains(loop, m) }})
+	c.Check("R3.bounded", key+"/until-exhausted", loop.Pos(), okOn && w2 == nil,
+		fmt.Sprintf("a chunk is copied only while %s, and the loop is left only once nothing remains: stopping earlier leaves RDB bytes in front of the command stream (or truncates the dump)", what), append(w1, w2...)...)
 }
 
 // ---------------------------------------------------------------------------
@@ -228,7 +267,7 @@ func (r *rs) boundedCaller(key string, fn *core.Fn, root ast.Node, iocopy *core.
 
 func (r *rs) pipeCopy() {
 	c := r.c
-	fn := c.Func(pkgS, "DbSyncer", "pSyncPipeCopy")
+	fn := r.fn(pkgS, "DbSyncer", "pSyncPipeCopy")
 	if fn == nil {
 		return
 	}
@@ -254,8 +293,8 @@ func (r *rs) pipeCopy() {
 		c.Undecidedf("R6.copy", "pSyncPipeCopy/shape", rd.Pos(), "results of Read/Write are not bound to variables")
 		return
 	}
-	rp, _ := g.Find(rd)
-	wp, _ := g.Find(wr)
+	rp, _ := flow.PointOf(g, rd)
+	wp, _ := flow.PointOf(g, wr)
 	nilFact := func(o types.Object) func(cfgq.Fact) bool {
 		return func(f cfgq.Fact) bool { isNil, ok := flow.NilCmp(info, f, flow.IsObj(info, o)); return ok && isNil }
 	}
@@ -280,7 +319,7 @@ func (r *rs) pipeCopy() {
 		c.Undecidedf("R6.copy", "pSyncPipeCopy/count", fn.Decl.Pos(), "expected one counter.Add(n), found %d", len(adds))
 		return
 	}
-	ap, _ := g.Find(adds[0])
+	ap, _ := flow.PointOf(g, adds[0])
 	okA, wA := g.Dominated(ap, isNode(wp.Node()))
 	okE, wE := flow.OnlyVia(g, ap, nilFact(werr))
 	c.Check("R6.copy", "pSyncPipeCopy/count-after-write", adds[0].Pos(), okA, "n is counted only after the n bytes were written: counting first advances the acknowledged offset past bytes that a failing write never delivered", wA...)
@@ -296,8 +335,8 @@ func (r *rs) pipeCopy() {
 
 func (r *rs) dumpSide() {
 	c := r.c
-	dump, sendCmd, rdbFile := c.Func(pkgR, "dbDumper", "dump"), c.Func(pkgR, "dbDumper", "sendCmd"), c.Func(pkgR, "dbDumper", "dumpRDBFile")
-	ioc, flush := c.Func(pkgU, "", "Iocopy"), c.Func(pkgU, "", "FlushWriter")
+	dump, sendCmd, rdbFile := r.fn(pkgR, "dbDumper", "dump"), r.fn(pkgR, "dbDumper", "sendCmd"), r.fn(pkgR, "dbDumper", "dumpRDBFile")
+	ioc, flush := r.fn(pkgU, "", "Iocopy"), r.fn(pkgU, "", "FlushWriter")
 	if dump == nil || sendCmd == nil || rdbFile == nil || ioc == nil || flush == nil {
 		return
 	}
@@ -346,14 +385,14 @@ func (r *rs) dumpSide() {
 		c.Undecidedf("R3.bounded", "dumpRDBFile/copy", rdbFile.Decl.Pos(), "cannot find the goroutine that calls Iocopy")
 		return
 	}
-	r.boundedCaller("dumpRDBFile", rdbFile, lit, ioc, rparam)
 	g := cfgq.OfLit(c.Program, info, lit)
+	r.boundedCaller("dumpRDBFile", rdbFile, g, lit, ioc, rparam)
 	call := callsTo(info, lit, ioc.Obj, false)[0]
 	if !pat.Same(info, call.Args[1], wid) {
 		c.Undecidedf("R3.bounded", "dumpRDBFile/flush", call.Pos(), "the copy does not write to the writer parameter")
 		return
 	}
-	cp, _ := g.Find(call)
+	cp, _ := flow.PointOf(g, call)
 	isFlush := flow.CallOn(g, func(fc *ast.CallExpr) bool {
 		return core.CalleeFunc(info, fc) == flush.Obj && pat.Same(info, fc.Args[0], wid) || pat.Expr("_w.Flush()").Match(info, fc, pat.Binds{"_w": wid}) != nil
 	})
